@@ -11,6 +11,7 @@
  *   p <i> <present> <rows> <n> <index>*n
  *   xxt <n> <rows|N>*n
  *   i <i> <namehex> <vol> <nsm> <nsub|-1> <gvl>*nsub
+ *   u <i> <nsub> <sid>*nsub                                 (sample id of every sub-instrument; nsub as above, 0 if none)
  *   e <flg> <npt> <sus> <sue> <lps> <lpe> <n> <data>*n      (three per instrument: aei pei fei)
  *   s <i> <namehex> <len> <lps> <lpe> <flg> <hasdata> <guards> <xsus> <xsue>
  *   seq <n> <entry duration>*n
@@ -84,7 +85,7 @@ static void c03_dump_env(FILE *o, const struct xmp_envelope *e, int with_data)
 
 /* nsub_of(i): number of sub-instrument entries to print for instrument i
  * (the allocation size is not observable on a real module: nsm is used) */
-static void c03_dump(FILE *o, struct context_data *ctx, const int *sub_alloc)
+static void c03_dump_ex(FILE *o, struct context_data *ctx, const int *sub_alloc, int raw)
 {
 	struct module_data *m = &ctx->m;
 	struct xmp_module *mod = &m->mod;
@@ -128,12 +129,20 @@ static void c03_dump(FILE *o, struct context_data *ctx, const int *sub_alloc)
 	for (i = 0; i < mod->ins; i++) {
 		const struct xmp_instrument *x = &mod->xxi[i];
 		int ns = -1;
-		if (x->sub != NULL)
+		if (x->sub != NULL) {
 			ns = sub_alloc ? sub_alloc[i] : (x->nsm > 0 ? x->nsm : 0);
+			/* a sub-instrument array shorter than nsm counts as not allocated */
+			if (!sub_alloc && ns > 0 && !c03_region_ok(x->sub, (size_t)ns * sizeof(struct xmp_subinstrument)))
+				ns = -1;
+		}
 		fprintf(o, "i %d ", i); put_hex(o, x->name, sizeof(x->name));
 		fprintf(o, " %d %d %d", x->vol, x->nsm, ns);
 		for (j = 0; j < ns; j++)
 			fprintf(o, " %d", x->sub[j].gvl);
+		fputc('\n', o);
+		fprintf(o, "u %d %d", i, ns > 0 ? ns : 0);
+		for (j = 0; j < ns; j++)
+			fprintf(o, " %d", x->sub[j].sid);
 		fputc('\n', o);
 		c03_dump_env(o, &x->aei, 1);
 		c03_dump_env(o, &x->pei, 0);
@@ -145,11 +154,18 @@ static void c03_dump(FILE *o, struct context_data *ctx, const int *sub_alloc)
 		fprintf(o, " %d %d %d %u %d %d %d %d\n", s->len, s->lps, s->lpe, (unsigned)s->flg,
 			s->data != NULL, c03_guards(s), m->xtra ? m->xtra[i].sus : 0, m->xtra ? m->xtra[i].sue : 0);
 	}
+	if (raw)		/* the state a format loader left behind: no sequences yet */
+		return;
 	fprintf(o, "seq %d", m->num_sequences);
 	for (i = 0; i < m->num_sequences && i < MAX_SEQUENCES; i++)
 		fprintf(o, " %d %d", m->seq_data[i].entry_point, m->seq_data[i].duration);
 	fputc('\n', o);
 	fputs("ctl ", o); put_hex(o, ctx->p.sequence_control, XMP_MAX_MOD_LENGTH); fputc('\n', o);
+}
+
+static void c03_dump(FILE *o, struct context_data *ctx, const int *sub_alloc)
+{
+	c03_dump_ex(o, ctx, sub_alloc, 0);
 }
 
 #endif
